@@ -424,6 +424,11 @@ pub fn run_c10(ctx: &Ctx, rep: &mut Report) {
     for case in ctx.case_range(n) {
         rep.current_case = case;
         let mut rng = ctx.rng("c10", case);
+        if case % 64 == 5 {
+            // signed requests (valid, stale, bad MAC, unknown key, short MAC) with every QNAME length
+            // 2..255 against a key name near the size limit: every one must get a response
+            crate::props::server::tsig_size_sweep(rep, &mut rng, "c10");
+        }
         let mut sc = c10_scenario(&mut rng);
         for _ in 0..24 {
             let key = rng.pick(&sc.cfg.keys).clone();
